@@ -662,6 +662,7 @@ Proof.
   - apply kk_stop_announce_service; exact Hg.
   - apply kk_queue_send; exact Hg.
   - eapply GG_same; [apply n_send_sd|exact Hg].
+  - destruct (get_inst i w) as [ins|] eqn:Ei; [|exact Hg]. eapply GG_same; [eapply n_put_inst; [exact Ei|reflexivity]|exact Hg].
 Qed.
 
 (* every callback except an expiry keeps both invariants; the expiry callback is treated with its pop (below) *)
